@@ -124,10 +124,14 @@ GraphEdges(g) == UNION {{<<g.nodes[i], g.nodes[g.adj[i][k]]>> : k \in DOMAIN g.a
 (*   objs   every object that instantiate_classes constructs, as a set of  *)
 (*          object paths (a nested object of a class argument has the path *)
 (*          of its spec: <<"r","child","init_args","grand">>)              *)
+(*   plains plain (non-class) top-level arguments that are link targets,    *)
+(*          as paths <<"t1">>; they are never constructed, the value       *)
+(*          arrives in the returned configuration                          *)
 (*   links  sequence, in the order link_arguments is called, of            *)
 (*          [srcs : sequence of [obj, attr] (attr "" = the whole object),  *)
-(*           tobj : the object that receives the value, param : its        *)
-(*           parameter, fn : BOOLEAN (a compute function is given)]        *)
+(*           tobj : the object that receives the value (or a plain         *)
+(*           argument), param : its parameter, fn : BOOLEAN (a compute     *)
+(*           function is given)]                                           *)
 (***************************************************************************)
 IsPrefix(q, p)  == Len(q) <= Len(p) /\ \A i \in 1..Len(q) : q[i] = p[i]
 Parent(p)       == SubSeq(p, 1, Len(p) - 1)
@@ -144,9 +148,10 @@ OwnerOf(shape, o) == CHOOSE c \in CompDests(shape) : IsPrefix(c, o) /\ \A c2 \in
 \* o2 is constructed as (part of) a constructor argument of o1
 Inside(o2, o1)  == o1 # o2 /\ IsPrefix(o1, o2)
 \* the key link_arguments is given for a target: group parameters are plain, everything else goes through init_args
-TargetKey(shape, l) == IF IsGroup(shape, l.tobj) THEN l.tobj \o <<l.param>> ELSE l.tobj \o <<"init_args", l.param>>
+TargetKey(shape, l) == IF l.tobj \in shape.plains THEN l.tobj
+                       ELSE IF IsGroup(shape, l.tobj) THEN l.tobj \o <<l.param>> ELSE l.tobj \o <<"init_args", l.param>>
 \* dest of the action that owns the target key (what _find_parent_action returns, :145)
-TargetAction(shape, l) == IF IsGroup(shape, l.tobj) THEN TargetKey(shape, l) ELSE OwnerOf(shape, l.tobj)
+TargetAction(shape, l) == IF l.tobj \in shape.plains \/ IsGroup(shape, l.tobj) THEN TargetKey(shape, l) ELSE OwnerOf(shape, l.tobj)
 
 (***************************************************************************)
 (* Part B, Ref                                                             *)
@@ -174,8 +179,8 @@ FirstNew(log, o) == CHOOSE i \in NewOf(log, o) : \A j \in NewOf(log, o) : i <= j
 
 ExactlyOnce(log, objs) == /\ \A o \in objs : Cardinality(NewOf(log, o)) = 1
                           /\ \A i \in News(log) : log[i].obj \in objs
-BuiltBefore(log, links) ==
-  \A e \in LinkEdgeSet(links) : NewOf(log, e[1]) # {} /\ NewOf(log, e[2]) # {} /\ FirstNew(log, e[1]) < FirstNew(log, e[2])
+BuiltBefore(log, links, objs) ==
+  \A e \in LinkEdgeSet(links) : e[2] \in objs => (NewOf(log, e[1]) # {} /\ NewOf(log, e[2]) # {} /\ FirstNew(log, e[1]) < FirstNew(log, e[2]))
 SrcVal(s)           == IF s.attr = "" THEN Obj(s.obj) ELSE Attr(s.obj, s.attr)
 Expected(links, i)  == IF links[i].fn THEN FnVal(i, [j \in DOMAIN links[i].srcs |-> SrcVal(links[i].srcs[j])])
                        ELSE SrcVal(links[i].srcs[1])
@@ -189,24 +194,36 @@ FnCalledOnce(log, links) ==
      ELSE calls = {}
 
 RefInstOK(shape, log) == /\ ExactlyOnce(log, shape.objs)
-                         /\ BuiltBefore(log, shape.links)
+                         /\ BuiltBefore(log, shape.links, shape.objs)
                          /\ ReceivesSource(log, shape.links)
+\* links into plain arguments: the returned configuration holds the value (final: plain path -> value term)
+RefPlainOK(shape, final) ==
+  \A i \in DOMAIN shape.links : shape.links[i].tobj \in shape.plains =>
+     (shape.links[i].tobj \in DOMAIN final /\ final[shape.links[i].tobj] = Expected(shape.links, i))
 
 \* "A set of links that would create a cycle is rejected when the link is added":
-\* results[i] \in {"ok", "rejected"} for the links in the order they are added, stopping at the first rejection
+\* results[i] \in {"ok", "rejected"} for the links in the order they are added, stopping at the first rejection.
+\* A cycle among the links must be rejected; a set that is acyclic even together with the constructor-argument
+\* edges must be accepted; in between (cyclic only through a constructor argument) the property does not say.
 SubLinks(links, n) == SubSeq(links, 1, n)
-RefAddOK(links, results) ==
+RefAddOK(shape, results) ==
+  LET links == shape.links IN
   /\ Len(results) <= Len(links)
-  /\ \A i \in DOMAIN results : results[i] = (IF Cyclic(LinkEdgeSet(SubLinks(links, i))) THEN "rejected" ELSE "ok")
-  /\ \A i \in DOMAIN results : results[i] = "rejected" => i = Len(results)
+  /\ \A i \in DOMAIN results :
+        /\ results[i] \in {"ok", "rejected"}
+        /\ Cyclic(LinkEdgeSet(SubLinks(links, i))) => results[i] = "rejected"
+        /\ ~Cyclic(LinkEdgeSet(SubLinks(links, i)) \cup ArgEdges(shape.objs)) => results[i] = "ok"
+        /\ results[i] = "rejected" => i = Len(results)
   /\ (Len(results) < Len(links) => Len(results) > 0 /\ results[Len(results)] = "rejected")
+AllAccepted(shape, results) == Len(results) = Len(shape.links) /\ \A i \in DOMAIN results : results[i] = "ok"
 
 (***************************************************************************)
 (* Part B, Alg                                                             *)
 (***************************************************************************)
 \* split_key_leaf(key)[0] with a trailing ".init_args" removed (:417): the graph node of a link target
+\* (split_key_leaf of a key without a dot returns the key itself)
 DropInitArgs(p)  == IF Len(p) > 0 /\ Last(p) = "init_args" THEN Parent(p) ELSE p
-TargetNode(tkey) == DropInitArgs(Parent(tkey))
+TargetNode(tkey) == IF Len(tkey) = 1 THEN tkey ELSE DropInitArgs(Parent(tkey))
 
 \* :416-420  one edge per source of every link (source_action.dest --> target node); targets in first-mention order
 RECURSIVE LinkEdgeSeq(_, _, _)
@@ -269,8 +286,8 @@ DeepestFirst(S) == IF S = {} THEN << >>
 
 \* is_nested_instantiation_link:481-491: source and target inside the same class argument (handled by the type hint)
 IsNestedLink(shape, l) ==
-  /\ ~IsGroup(shape, l.tobj)
-  /\ \A j \in DOMAIN l.srcs : l.srcs[j].obj = TargetAction(shape, l)
+  /\ l.tobj \notin shape.plains /\ ~IsGroup(shape, l.tobj)
+  /\ \A j \in DOMAIN l.srcs : l.srcs[j].obj = TargetAction(shape, l) /\ l.srcs[j].attr # ""
 
 \* the state of one instantiate_classes call
 \*   built    objects constructed so far                 vals   target key -> value written by a link
@@ -278,9 +295,13 @@ IsNestedLink(shape, l) ==
 \*   failed   an exception escaped (AttributeError on an un-instantiated group, see :358)
 MachineInit == [built |-> {}, vals |-> << >>, applied |-> {}, log |-> << >>, failed |-> FALSE]
 
-\* apply_instantiation_links:343-358  the value of one source
+\* apply_instantiation_links:343-358  the value of one source.  `cfg[source_action.dest]` (:345) walks the
+\* configuration by the dotted key: once a class group is instantiated its entry is the object, and a class-typed
+\* parameter below it (r.child) can no longer be reached (NSKeyError) -- recorded deviation nested-source-unreachable.
+SourceUnreachable(shape, m, s) == \E g \in m.built : IsGroup(shape, g) /\ Inside(s.obj, g)
 SourceValue(shape, m, s) ==
-  IF s.obj \in m.built THEN SrcVal(s)
+  IF SourceUnreachable(shape, m, s) THEN [k |-> "raise"]
+  ELSE IF s.obj \in m.built THEN SrcVal(s)
   ELSE IF s.attr = "" THEN Stale(s.obj)                              \* :347 the Namespace of the spec is passed on
   ELSE IF IsGroup(shape, s.obj) THEN [k |-> "raise"]                 \* :358 getattr(Namespace, attr)
   ELSE [k |-> "skip"]                                                \* :352-357 "ignored since attribute not found"
@@ -338,6 +359,8 @@ AlgInstantiate(shape) ==
       cs == PlannedComponents(shape, o.order)               \* :1228
       m  == RunLoop(shape, MachineInit, cs, 1)              \* :1231-1248
   IN IF m.failed THEN m ELSE ApplyRest(shape, m, o.order)   \* :1250
+\* what the returned configuration holds for the plain link targets
+FinalPlain(shape, m) == [t \in shape.plains |-> IF t \in DOMAIN m.vals THEN m.vals[t] ELSE None]
 
 \* link_arguments one link at a time: the cycle check of ActionLink.__init__:193-198 runs instantiation_order over
 \* the links added so far (the new one included, :191) and turns its ValueError into the rejection
